@@ -59,10 +59,13 @@ class Section(dict):
 
         if self.type:
             if self.name:
-                start = f'{pre}<{self.type} {self.name}>'
+                start = f'{pre}<{self.type} {self.name}'
             else:
-                start = f'{pre}<{self.type}>'
-            result.append(start)
+                start = f'{pre}<{self.type}'
+            if start.endswith('/'):
+                # keep '<a b/>' from reading as the self-closing form
+                start += ' '
+            result.append(start + '>')
             pre += '  '
 
         lst = sorted(self.items())
